@@ -590,6 +590,22 @@ def concretize(m, op):
             accept = [dc(before), set_path(dc(before), path, None)]
             src = "try (%s append= 1) catch e -> null" % render_path(name, path)
             return {"src": src, "cls": "fail:opassign", "accept": (name, accept), "reset": (name, before)}
+        if which == 2 and r.below(2) == 0:
+            # out-of-range slot assignment into a string / vector / bytes (at any depth): must change nothing
+            cands = []
+            for n in m.names():
+                p = walk(R([r.next()]), V[n], 2, want=lambda x: isinstance(x, (str, Vec, bytes)), allow_root=True)
+                if p is not None:
+                    cands.append((n, p))
+            if cands:
+                name, path = cands[r.below(len(cands))]
+                tgtv = get_path(V[name], path)
+                ln = len(tgtv.xs) if isinstance(tgtv, Vec) else len(tgtv)
+                before = dc(V[name])
+                idx = ln + r.below(3) if r.below(3) else -(ln + 1 + r.below(2))
+                val = "\"x\"" if isinstance(tgtv, str) else "5"
+                src = "try (%s[%s] = %s) catch e -> null" % (render_path(name, path), idx if idx >= 0 else "(0-%d)" % -idx, val)
+                return {"src": src, "cls": "fail:setidx_oob_" + type(tgtv).__name__.lower(), "accept": (name, [dc(before)]), "reset": (name, before)}
         cs = [n for n in m.names() if isinstance(V[n], (list, NDict, Inst))]
         if not cs:
             return None
